@@ -114,6 +114,8 @@ def scenario(res, seed, tier):
             raw = raw.encode()
         if rng.random() < 0.25:
             sk = "sk%d" % rng.randrange(6)
+            if rng.random() < 0.2:
+                sk = ""            # the empty server key is a server key like any other (all such pairs share one server)
             if use_bytes:
                 sk = sk.encode()
             keys.append(((sk, raw), sk, raw))
